@@ -17,14 +17,14 @@ Trace == ndJsonDeserialize("trace.ndjson")
 VARIABLES l
 tvars == <<vars, l>>
 
-Empty == [occ |-> TRUE, batch |-> 1]
+Empty == [occ |-> TRUE, batch |-> 1, path |-> "async"]
 
 Fail(kind, e, name) == PrintT(<<"FAIL", kind, e.t, l, e.a, name>>)
 Chk(ok, kind, e, name) == IF ok THEN TRUE ELSE Fail(kind, e, name)
 
 TraceInit ==
   /\ cfg = Empty /\ msgs = <<>> /\ net = {} /\ chan = <<>> /\ log = <<>> /\ ackq = {}
-  /\ clk = 1 /\ known = <<>>
+  /\ clk = 1 /\ known = <<>> /\ paused = FALSE
   /\ Trace[1].a = "Open"     \* first line: the driver's start marker
   /\ l = 2
 
@@ -32,10 +32,11 @@ BindRound(e) ==
   /\ cfg' = e.cfg /\ msgs' = e.msgs /\ log' = e.log
   /\ net' = {} /\ chan' = <<>> /\ ackq' = {}
   /\ clk' = e.clk /\ known' = e.known
+  /\ paused' = e.paused       \* state of the partition when the round ended
 
 Reset ==
   /\ cfg' = Empty /\ msgs' = <<>> /\ log' = <<>> /\ net' = {} /\ chan' = <<>> /\ ackq' = {}
-  /\ clk' = 1 /\ known' = <<>>
+  /\ clk' = 1 /\ known' = <<>> /\ paused' = FALSE
 
 TraceNext ==
   /\ Trace[l].a # "End"
